@@ -50,6 +50,15 @@ Item = Any   # Tok | ('star', [Item]) | ('alt', test_src, [Item], [Item], ast.If
 _READ_SIZES: Dict[int, Set[str]] = {}
 
 
+def _anc14(mod: Any, n: ast.AST, stop: Any) -> List[ast.AST]:
+    out = []
+    p = mod.parents.get(n)
+    while p is not None and p is not stop:
+        out.append(p)
+        p = mod.parents.get(p)
+    return out
+
+
 class DmxWire:
     """Token extraction for the binary reader / writer under a configuration (version, value type, array shape)."""
 
@@ -955,6 +964,16 @@ def run(ctx: Any, prog: Program) -> None:
     tw, tr = dmx.func('_conv_time_to_binary'), dmx.func('_conv_binary_to_time')
     scales_w = [n.right.value for n in ast.walk(tw) if isinstance(n, ast.BinOp) and isinstance(n.op, ast.Mult) and isinstance(n.right, ast.Constant)]
     scales_r = [n.right.value for n in ast.walk(tr) if isinstance(n, ast.BinOp) and isinstance(n.op, ast.Div) and isinstance(n.right, ast.Constant)]
+    recips_r = [n.right.value for n in ast.walk(tr) if isinstance(n, ast.BinOp) and isinstance(n.op, ast.Mult) and isinstance(n.right, ast.Constant) and isinstance(n.right.value, float)] + \
+        [n.left.value for n in ast.walk(tr) if isinstance(n, ast.BinOp) and isinstance(n.op, ast.Mult) and isinstance(n.left, ast.Constant) and isinstance(n.left.value, float)]
+    if len(scales_w) == 1 and not scales_r and len(recips_r) == 1:
+        # decoding by multiplying with the reciprocal: exact only when the reciprocal is a binary fraction; 0.0001 is not, and `n * 0.0001`
+        # differs from `n / 10000.0` (the correctly rounded quotient, which is what the text form and the encoder agree with) for many n
+        c_ = recips_r[0]
+        exact = c_ != 0 and (1.0 / c_) == scales_w[0] and float(c_).hex().split('p')[0] in ('0x1.0000000000000', '-0x1.0000000000000')
+        ctx.check('C14.X4', exact, dmx, tr, f'_conv_binary_to_time multiplies the tick count by {c_!r} instead of dividing by {scales_w[0]!r}: {c_!r} is not exactly 1/{scales_w[0]!r} in binary floating point, so about a third '
+                  'of the tick counts decode one ulp away from the value that was written (3 ticks -> 0.00030000000000000003)', func='_conv_binary_to_time', text='time scale agrees')
+        scales_r = [scales_w[0]]
     if len(scales_w) != 1 or len(scales_r) != 1:
         raise AnalysisError('time converters: fixed-point scale not found')
     ctx.check('C14.X4', scales_w == scales_r, dmx, tw, f'time is multiplied by {scales_w[0]} when written but divided by {scales_r[0]} when read', func='_conv_time_to_binary', text='time scale agrees')
@@ -1229,6 +1248,21 @@ def run(ctx: Any, prog: Program) -> None:
         kws = {k.arg for k in u18.keywords}
         ctx.check('C14.X18', 'version' not in kws and None not in kws and len(u18.args) <= 1, dmx, u18, f'`{U(u18)[:60]}` passes version=: uuid.UUID then replaces the version and variant bits, so an id that is not already of that version '
                   'is read as a different id and exported differently', text=f'`{U(u18)[:40]}` keeps the id bits')
+    # ---- X19: a missing target ends one reference, not the resolution pass --------------------------------------------------------------------
+    # parse_kv2 resolves the queued references after the whole file was read; an id that is not in the file stays a stub.  The lookup that
+    # can miss (`id_to_elem[uuid]`) is therefore handled per reference - inside the loop.  A `try` wrapped around the loop ends the pass at
+    # the first stub: every reference queued after it (shared elements, cycles, the way back to the root) stays unresolved.
+    ctx.rule('C14.X19', 'KV2 reader: the reference resolution loop handles a missing id per reference, not around the loop', floor=1)
+    pk19 = dmx.func('Element.parse_kv2')
+    loops19 = [l for l in walk_no_nested(pk19) if isinstance(l, ast.For) and any(isinstance(x, ast.Subscript) and isinstance(x.ctx, ast.Load) and isinstance(x.value, ast.Name) and 'id' in x.value.id and 'elem' in x.value.id for x in ast.walk(l))]
+    ctx.shape('C14.X19', len(loops19) == 1, dmx, pk19, 'the loop of parse_kv2 that looks queued references up in the id table was not found once', func='Element.parse_kv2', text='reference resolution loop')
+    for l19 in loops19[:1]:
+        outer_try = [a for a in _anc14(dmx, l19, pk19) if isinstance(a, ast.Try) and any(l19 is x for b in a.body for x in ast.walk(b))
+                     and any(h.type is None or any((dotted(t) or '') in ('KeyError', 'LookupError', 'Exception') for t in (h.type.elts if isinstance(h.type, ast.Tuple) else [h.type])) for h in a.handlers)]
+        swallowing = [t for t in outer_try if any(not any(isinstance(x, ast.Raise) for x in ast.walk(h)) for h in t.handlers)]
+        ctx.check('C14.X19', not swallowing, dmx, swallowing[0] if swallowing else l19, 'parse_kv2 wraps the whole reference resolution loop in `try ... except KeyError: pass`: the first reference to an element that is not in the file '
+                  '(a stub) ends the loop, and every reference queued after it - shared elements, cycles, references back to the root - is left as a stub although its target was read', func='Element.parse_kv2',
+                  text='a missing id is handled per reference')
     ctx.rule('C14.X12', 'KV2 reader: every queued reference is given a stub carrying its id, in array and scalar position', floor=2)
     pk = dmx.func('Element._parse_kv2_element')
     for c in [x for x in ast.walk(pk) if isinstance(x, ast.Call) and isinstance(x.func, ast.Attribute) and x.func.attr == 'append' and isinstance(x.func.value, ast.Name) and x.func.value.id in [a.arg for a in pk.args.args]
@@ -1357,6 +1391,8 @@ def run(ctx: Any, prog: Program) -> None:
 
 
 MUTANTS: List[Dict[str, Any]] = [
+    {'id': 'kv2_fixup_try_around_loop', 'file': 'dmx.py', 'find': "        for attr, index, uuid, line_num in fixups:\n            try:\n                elem = id_to_elem[uuid]\n            except KeyError:\n                continue  # It'll be a stub element.\n            if index is None:\n                attr._value = elem\n            else:\n                attr._value[index] = elem\n", 'replace': "        try:\n            for attr, index, uuid, line_num in fixups:\n                elem = id_to_elem[uuid]\n                if index is None:\n                    attr._value = elem\n                else:\n                    attr._value[index] = elem\n        except KeyError:\n            pass\n", 'expect': 'C14.X19', 'note': 'round 12'},
+    {'id': 'time_decoded_by_reciprocal', 'file': 'dmx.py', 'find': "    return Time(num / 10000.0)", 'replace': "    return Time(num * 1e-4)", 'expect': 'C14.X4', 'note': 'round 12'},
     {'id': 'null_compared_by_value', 'file': 'dmx.py', 'find': "                        if subelem is NULL:  # It's a singleton.", 'replace': "                        if subelem == NULL:", 'expect': 'C14.X17', 'note': 'round 11'},
     {'id': 'uuid_version_forced', 'file': 'dmx.py', 'find': "                            uuid = UUID(binformat.read_nullstr(file))", 'replace': "                            uuid = UUID(binformat.read_nullstr(file), version=4)", 'expect': 'C14.X18', 'note': 'round 11'},
     {'id': 'header_end_found_from_the_right', 'file': 'dmx.py', 'find': "            header_len = header.find(b'-->', -260)", 'replace': "            header_len = header.rfind(b'-->')", 'expect': 'C14.X16'},
